@@ -51,7 +51,7 @@ class C04:
     level = "exploration"
     tables = True
     rule = (
-        "cases = (hostile argument string, delivery form in {@(v), @([v,w]), @(generator), @(non-str), glued pre@(v)post, repr/raw/triple/escaped literals, f-string, triple-quoted f-string with newline/quote/escape segments, macro, @$()}, "
+        "cases = (hostile argument string, delivery form in {@(v), @([v,w]), @(generator), @(non-str), glued pre@(v)post, repr/raw/triple/escaped literals incl. upper-case prefixes, bare words of backslashes / symbols / non-ASCII characters, f-string, triple-quoted f-string with newline/quote/escape segments, macro, @$()}, "
         "position first/middle/last, delivery path in {threaded alias, unthreadable alias, real child, real child after a pipe, alias inside $(), the same commands reached through a list alias, an alias of an alias and a string alias}); "
         "distinct_nontrivial = distinct (string, form, position, path) with a string containing at least one shell/glob/quote metacharacter"
     )
